@@ -79,6 +79,16 @@ func editOnce(rt *rapid.T, s string, label string) string {
 	}
 }
 
+// capFirst upper-cases the first letter of the path ("/ready" -> "/Ready").
+func capFirst(p string) string {
+	for i := 0; i < len(p); i++ {
+		if p[i] >= 'a' && p[i] <= 'z' {
+			return p[:i] + string(p[i]-32) + p[i+1:]
+		}
+	}
+	return p
+}
+
 func flipCase(s string) string {
 	b := []byte(s)
 	for i, c := range b {
@@ -241,7 +251,8 @@ func genReq(rt *rapid.T, s Settings) Req {
 		base = FillTemplate(base, []string{"x", "y", "z"})
 		q.Path = rapid.OneOf(
 			rapid.SampledFrom([]string{"/", "/x", "/ready/", "/READY", "/api", "/loki/api/v1", "/metrics/x", "/favicon.ico",
-				"//ready", "/./ready", "/a/../ready", base + "/extra", strings.ToUpper(base), base + "x"}),
+				"//ready", "/./ready", "/a/../ready", base + "/extra", strings.ToUpper(base), base + "x",
+				base + "/", flipCase(base), capFirst(base), "/loki/api/v1/push/", "/Ready"}),
 			rapid.StringMatching(`(/[a-z0-9_.-]{1,6}){1,4}`),
 		).Draw(rt, "odd-path")
 		q.Method = rapid.SampledFrom(allMethods).Draw(rt, "any-method")
@@ -252,7 +263,9 @@ func genReq(rt *rapid.T, s Settings) Req {
 	q.AE = rapid.SampledFrom([]string{"", "gzip", "br", "gzip;q=0", "gzip, deflate, br", "identity"}).Draw(rt, "ae")
 	if rapid.Bool().Draw(rt, "has-origin") {
 		q.HasOrigin = true
-		q.Origin = rapid.SampledFrom([]string{"http://evil.example", "http://grafana.local", "null", "*", ""}).Draw(rt, "origin")
+		// listed (in corsOrigins below), unlisted, null, case / trailing-slash variants
+		q.Origin = rapid.SampledFrom([]string{"http://evil.example", "http://grafana.local", "https://other.example:3000", "null",
+			"HTTP://GRAFANA.LOCAL", "http://grafana.local/", "http://grafana.local:80", "*", ""}).Draw(rt, "origin")
 	}
 	if q.ACRM == "" && rapid.IntRange(0, 6).Draw(rt, "stray-acrm") == 0 {
 		// a preflight header on a request that is not OPTIONS (sloppy preflight detection)
@@ -274,6 +287,10 @@ func genReq(rt *rapid.T, s Settings) Req {
 	return q
 }
 
+// corsOrigins: CORS_ALLOW_ORIGIN / http_settings.cors.origin values: any origin, empty
+// (CorsMiddleware turns it into "*"), one explicit origin, a comma-separated list.
+var corsOrigins = []string{"*", "", "http://grafana.local", "http://grafana.local,https://other.example:3000"}
+
 func genSettings(rt *rapid.T) Settings {
 	s := Settings{
 		Login:    genCredential(rt, "login", false),
@@ -282,7 +299,7 @@ func genSettings(rt *rapid.T) Settings {
 	}
 	if rapid.Bool().Draw(rt, "cors") {
 		s.Cors = true
-		s.Origin = rapid.SampledFrom([]string{"*", "", "http://grafana.local"}).Draw(rt, "cors-origin")
+		s.Origin = rapid.SampledFrom(corsOrigins).Draw(rt, "cors-origin")
 	}
 	return s
 }
